@@ -1,15 +1,9 @@
 (* Proofs/ChainFinderP.v — the ChainFinder invariant is preserved by meld_new_hashes for EVERY pop order,
    provided no walk can run through a batch header that earlier orphans are waiting for ([safe]). *)
 From Coq Require Import List NArith ZArith Bool Lia Arith.
-From PV Require Import Base.Outcome Model.Chain Proofs.ChainP.
+From PV Require Import Base.Outcome Model.Chain Spec.ChainSpec Proofs.ChainP.
 Import ListNotations.
 Local Open Scope N_scope.
-
-(* paths: [ppath p P b l] — l = b, parent b, ..., t where every element but the last satisfies P and the last
-   one (the "top") does not *)
-Inductive ppath (p : dict hash) (P : hash -> Prop) : hash -> list hash -> Prop :=
-| pp_top : forall t, ~ P t -> ppath p P t [t]
-| pp_step : forall b b' l, P b -> dget b p = Some b' -> ppath p P b' l -> ppath p P b (b :: l).
 
 Section Paths.
 Variable p : dict hash.
@@ -117,7 +111,7 @@ Definition no_tree (cf : finder) (w : hash) : Prop :=
 Lemma walk_ok : forall f cur path new cf,
   trees_ok cf -> (forall n t, steps p n cur t -> (n < f)%nat) ->
   exists ws new',
-    linked cur ws /\ (forall w, In w ws -> no_tree cf w) /\
+    linked cur ws /\ (forall w, In w ws -> no_tree cf w) /\ (length new' <= length new)%nat /\
     ((dget (last ws cur) p = None /\ (forall x, In x new' <-> In x new /\ ~ In x ws) /\
        walk f cur path new cf = Ret (path ++ ws, new', cf)) \/
      (exists k pre s, dget (last ws cur) p = Some k /\ dget k (tfb cf) = Some pre /\ pre <> [] /\
@@ -134,9 +128,10 @@ Proof.
       destruct (dget nxt (tfb cf)) as [[|b0 r]|] eqn:Et.
       * (* empty list stored: falsy, continue *)
         destruct (IH nxt (path ++ [nxt]) (sdiscard nxt new) cf (conj Epl TF) Hfuel')
-          as (ws & new' & Hl & Hnt & Hres).
+          as (ws & new' & Hl & Hnt & Hlen & Hres).
         exists (nxt :: ws), new'. split; [cbn; auto|]. split.
         { intros w [<-|Hw]; [unfold no_tree; now rewrite Et|auto]. }
+        split; [pose proof (sdiscard_length nxt new); lia|].
         rewrite last_cons_shift.
         destruct Hres as [(En & Hm & Hw)|(k & pre & s & Ek & Etk & Hne & Es & Hm & Hw)].
         -- left. split; [exact En|]. split.
@@ -149,17 +144,18 @@ Proof.
         destruct (TF _ _ Et) as ((r' & Er) & (s & Es & Hin)).
         inversion Er; subst b0 r'. clear Er.
         exists [], (sdiscard nxt new). split; [exact I|]. split; [intros w []|].
-        right. exists nxt, (nxt :: r), s. cbn [last app].
-        split; [exact Ec|]. split; [exact Et|]. split; [discriminate|].
+        split; [apply sdiscard_length|].
+        right. exists nxt, (nxt :: r), s.
         assert (El : last (nxt :: r) nxt = last (nxt :: r) 0) by (apply last_default; discriminate).
+        split; [exact Ec|]. split; [exact Et|]. split; [discriminate|].
         split; [exact Es|]. split.
         { intros x. rewrite sdiscard_In. cbn. intuition congruence. }
-        cbn [last] in El. rewrite El, Es.
-        apply mem_In in Hin. rewrite Hin. reflexivity.
+        rewrite El, Es. apply mem_In in Hin. rewrite Hin. reflexivity.
       * destruct (IH nxt (path ++ [nxt]) (sdiscard nxt new) cf (conj Epl TF) Hfuel')
-          as (ws & new' & Hl & Hnt & Hres).
+          as (ws & new' & Hl & Hnt & Hlen & Hres).
         exists (nxt :: ws), new'. split; [cbn; auto|]. split.
         { intros w [<-|Hw]; [unfold no_tree; now rewrite Et|auto]. }
+        split; [pose proof (sdiscard_length nxt new); lia|].
         rewrite last_cons_shift.
         destruct Hres as [(En & Hm & Hw)|(k & pre & s & Ek & Etk & Hne & Es & Hm & Hw)].
         -- left. split; [exact En|]. split.
@@ -168,7 +164,616 @@ Proof.
         -- right. exists k, pre, s. repeat (split; [assumption|]). split.
            ++ intros x. rewrite Hm, sdiscard_In. cbn. intuition congruence.
            ++ rewrite Hw. now rewrite <- app_assoc.
-    + exists [], new. split; [exact I|]. split; [intros w []|].
+    + exists [], new. split; [exact I|]. split; [intros w []|]. split; [lia|].
       left. cbn [last]. split; [exact Ec|]. split; [intros x; cbn; tauto|now rewrite app_nil_r].
 Qed.
+
+(* ---- facts about [linked] *)
+Lemma linked_anc : forall ws cur, linked cur ws -> forall w, In w ws -> anc p cur w.
+Proof.
+  induction ws as [|w0 r IH]; intros cur Hl w Hw; [destruct Hw|].
+  destruct Hl as [E Hl]. destruct Hw as [<-|Hw]; [now apply anc_one|].
+  eapply anc_step; eauto.
+Qed.
+Lemma linked_next : forall ws cur, linked cur ws -> forall c y, In c (cur :: ws) -> dget c p = Some y ->
+  In y ws \/ c = last ws cur.
+Proof.
+  induction ws as [|w0 r IH]; intros cur Hl c y Hc Ey.
+  - destruct Hc as [<-|[]]. now right.
+  - destruct Hl as [E Hl]. rewrite last_cons_shift. destruct Hc as [<-|Hc].
+    + left. left. congruence.
+    + destruct (IH w0 Hl c y Hc Ey) as [H|H]; [left; now right|now right].
+Qed.
+Lemma linked_known : forall ws cur, linked cur ws -> forall c, In c (removelast (cur :: ws)) -> known c.
+Proof.
+  induction ws as [|w0 r IH]; intros cur Hl c Hc; [destruct Hc|].
+  destruct Hl as [E Hl]. change (removelast (cur :: w0 :: r)) with (cur :: removelast (w0 :: r)) in Hc.
+  destruct Hc as [<-|Hc]; [unfold known; congruence|eauto].
+Qed.
+Lemma linked_ppath_A (P : hash -> Prop) : forall ws cur, linked cur ws ->
+  (forall x, In x (removelast (cur :: ws)) -> P x) -> ~ P (last ws cur) -> ppath p P cur (cur :: ws).
+Proof.
+  induction ws as [|w0 r IH]; intros cur Hl HP Hn.
+  - constructor. exact Hn.
+  - destruct Hl as [E Hl]. rewrite last_cons_shift in Hn.
+    change (removelast (cur :: w0 :: r)) with (cur :: removelast (w0 :: r)) in HP.
+    econstructor; [apply HP; now left|exact E|]. apply IH; auto. intros x Hx. apply HP. now right.
+Qed.
+Lemma linked_ppath_B (P : hash -> Prop) k pre : forall ws cur, linked cur ws ->
+  dget (last ws cur) p = Some k -> (forall x, In x (cur :: ws) -> P x) -> ppath p P k pre ->
+  ppath p P cur (cur :: ws ++ pre).
+Proof.
+  induction ws as [|w0 r IH]; intros cur Hl Ek HP Hk.
+  - cbn in *. econstructor; eauto.
+  - destruct Hl as [E Hl]. rewrite last_cons_shift in Ek.
+    cbn [app]. econstructor; [apply HP; now left|exact E|]. apply IH; auto. intros x Hx. apply HP. now right.
+Qed.
+
+(* ---- the invariant during a batch *)
+Variable old : hash -> Prop.
+Variable N0 : list hash.
+Hypothesis old_known : forall c, old c -> known c.
+Hypothesis N0_new : forall x, In x N0 -> ~ old x /\ known x.
+Hypothesis safe : forall t a c, In t N0 -> In a N0 -> a <> t -> old c -> dget c p = Some t -> ~ anc p a t.
+
+
+Record inv (new : list hash) (cf : finder) : Prop := {
+  i_pl : pl cf = p;
+  i_sub : forall x, In x new -> In x N0;
+  i_tree : forall b l, dget b (tfb cf) = Some l -> proc new b /\ ppath p (proc new) b l;
+  i_dbt : dbt_ok cf;
+  i_nodup : nodup_ok cf;
+  i_cover : forall x, proc new x -> exists b l, dget b (tfb cf) = Some l /\ In x l;
+  i_J : forall c y, proc new c -> dget c p = Some y -> In y new -> old c
+}.
+
+Lemma inv_trees_ok new cf : inv new cf -> trees_ok cf.
+Proof.
+  intros I. split; [apply I|]. intros k pre E. destruct (i_tree _ _ I _ _ E) as [_ Hp].
+  split; [eapply ppath_hd; eauto|]. apply (i_dbt _ _ I). eauto.
+Qed.
+
+(* the state between the walk and the insertion of the new path: [a] is treated as not yet processed *)
+Definition pm (new' : list hash) (a x : hash) : Prop := proc new' x /\ x <> a.
+Record mid (a : hash) (new new' : list hash) (path' : list hash) (cf' : finder) : Prop := {
+  m_pl : pl cf' = p;
+  m_sub : forall x, In x new' -> In x new /\ x <> a;
+  m_tree : forall b l, dget b (tfb cf') = Some l -> pm new' a b /\ ppath p (pm new' a) b l;
+  m_dbt : dbt_ok cf';
+  m_nodup : nodup_ok cf';
+  m_cover : forall x, pm new' a x -> (exists b l, dget b (tfb cf') = Some l /\ In x l) \/ In x path';
+  m_path : ppath p (proc new') a path';
+  m_J : forall c y, proc new' c -> dget c p = Some y -> In y new' -> old c;
+  m_len : (length new' < length new)%nat
+}.
+
+Lemma In_removelast {A} (x : A) l : In x (removelast l) -> In x l.
+Proof.
+  induction l as [|y r IH]; [intros []|]. destruct r; [intros []|].
+  change (removelast (y :: a :: r)) with (y :: removelast (a :: r)). intros [<-|H]; [now left|right; auto].
+Qed.
+Lemma proc_dec new x : proc new x \/ ~ proc new x.
+Proof.
+  unfold proc, known. destruct (dget x p); destruct (in_dec N.eq_dec x new); intuition congruence.
+Qed.
+Lemma notproc_known_In new x : ~ proc new x -> known x -> In x new.
+Proof. intros H K. destruct (in_dec N.eq_dec x new); [assumption|]. exfalso. apply H. now split. Qed.
+Lemma linked_anc_k : forall ws cur k, linked cur ws -> dget (last ws cur) p = Some k ->
+  forall x, In x (cur :: ws) -> anc p x k /\ known x.
+Proof.
+  induction ws as [|w0 r IH]; intros cur k Hl Ek x Hx.
+  - destruct Hx as [<-|[]]. cbn in Ek. split; [now apply anc_one|unfold known; congruence].
+  - destruct Hl as [E Hl]. rewrite last_cons_shift in Ek. destruct Hx as [<-|Hx].
+    + split; [|unfold known; congruence]. eapply anc_step; [exact E|]. apply (IH w0 k Hl Ek). now left.
+    + eapply IH; eauto.
+Qed.
+
+Lemma walk_mid new cf a : inv new cf -> In a new ->
+  exists path' new' cf',
+    walk (S (length (pl cf))) a [a] (sdiscard a new) cf = Ret (path', new', cf') /\ mid a new new' path' cf'.
+Proof.
+  intros I Ha.
+  assert (HaN0 : In a N0) by (apply (i_sub _ _ I); exact Ha).
+  assert (Hak : known a) by (apply N0_new; exact HaN0).
+  assert (Hnpa : ~ proc new a) by (intros [_ H]; contradiction).
+  destruct (walk_ok (S (length (pl cf))) a [a] (sdiscard a new) cf (inv_trees_ok _ _ I))
+    as (ws & new' & Hl & Hnt & Hlen & Hres).
+  { intros n t Hs. rewrite (i_pl _ _ I). apply steps_bound with (rk := rk) in Hs; auto. lia. }
+  assert (Hanc : forall w, In w ws -> anc p a w) by (apply linked_anc; exact Hl).
+  assert (Hmono0 : forall x, proc new x -> x <> a) by (intros x Hx ->; contradiction).
+  (* a tree's top that is known cannot lie on the walk: that is where [safe] is used *)
+  assert (Htops : forall b l, dget b (tfb cf) = Some l -> In (last l 0) ws -> known (last l 0) -> False).
+  { intros b l E Hin Hk. destruct (i_tree _ _ I _ _ E) as [Pb Hp].
+    pose proof (ppath_last_notP _ _ _ _ Hp) as Hn.
+    pose proof (notproc_known_In _ _ Hn Hk) as Hnew.
+    destruct (ppath_before_last _ _ _ _ Hp Pb) as (c & Hc & Pc & Ec).
+    pose proof (i_J _ _ I _ _ Pc Ec Hnew) as Hold.
+    pose proof (Hanc _ Hin) as Ha'.
+    apply (safe (last l 0) a c); auto.
+    - apply (i_sub _ _ I); exact Hnew.
+    - eapply anc_neq; eauto. }
+  destruct Hres as [(En & Hm & Hw)|(k & pre & s & Ek & Etk & Hne & Es & Hm & Hw)].
+  - (* the walk ended at an unknown hash *)
+    assert (Hsub : forall x, In x new' -> In x new /\ x <> a).
+    { intros x Hx. apply Hm in Hx. destruct Hx as [Hx _]. now apply sdiscard_In in Hx. }
+    assert (Hmono : forall x, proc new x -> pm new' a x).
+    { intros x [K Hx]. split; [split; [exact K|]|apply Hmono0; now split]. intros H. apply Hsub in H. tauto. }
+    assert (Hgone : forall x, In x new -> ~ In x new' -> x <> a -> In x ws).
+    { intros x Hx Hn Hxa. destruct (in_dec N.eq_dec x ws) as [H|H]; [exact H|]. exfalso. apply Hn.
+      apply Hm. split; [apply sdiscard_In; now split|exact H]. }
+    exists ([a] ++ ws), new', cf. split; [exact Hw|]. constructor.
+    + apply I.
+    + exact Hsub.
+    + intros b l E. destruct (i_tree _ _ I _ _ E) as [Pb Hp]. split; [now apply Hmono|].
+      eapply ppath_mono; [exact Hp|exact Hmono|]. intros [[Kt Hnt'] Hta].
+      pose proof (ppath_last_notP _ _ _ _ Hp) as Hn.
+      pose proof (notproc_known_In _ _ Hn Kt) as Hnew.
+      eapply Htops; eauto.
+    + apply I.
+    + apply I.
+    + intros x [[K Hx] Hxa]. destruct (proc_dec new x) as [Px|Px].
+      * left. now apply (i_cover _ _ I).
+      * right. cbn. right. apply Hgone; auto. now apply notproc_known_In.
+    + cbn [app]. apply linked_ppath_A; auto.
+      * intros x Hx. split; [eapply linked_known; eauto|].
+        intros Hx'. apply In_removelast in Hx. destruct Hx as [<-|Hx].
+        -- apply Hsub in Hx'. tauto.
+        -- apply Hm in Hx'. tauto.
+      * intros [K _]. apply K. exact En.
+    + intros c y Pc Ey Hy. destruct (proc_dec new c) as [Px|Px].
+      * eapply (i_J _ _ I); eauto. apply Hsub in Hy. tauto.
+      * destruct Pc as [Kc Hc]. pose proof (notproc_known_In _ _ Px Kc) as Hcn.
+        assert (Hin : In c (a :: ws)).
+        { destruct (N.eq_dec c a) as [->|Hca]; [now left|right; apply Hgone; auto]. }
+        destruct (linked_next _ _ Hl _ _ Hin Ey) as [H|H].
+        -- apply Hm in Hy. tauto.
+        -- subst c. congruence.
+    + pose proof (sdiscard_length_lt a new Ha). lia.
+  - (* the walk met the bottom k of an existing tree *)
+    destruct (i_tree _ _ I _ _ Etk) as [Pk Hpk].
+    pose proof (ppath_last_notP _ _ _ _ Hpk) as Hntop.
+    set (top := last pre 0) in *.
+    assert (Hktop : anc p k top).
+    { destruct (ppath_hd _ _ _ _ Hpk) as (r & Er).
+      destruct (ppath_anc_last _ _ _ _ Hpk k) as [E|A]; [rewrite Er; now left| |exact A].
+      exfalso. apply Hntop. fold top in E. rewrite <- E. exact Pk. }
+    pose proof (linked_anc_k _ _ _ Hl Ek) as Hwk.
+    assert (Hatop : anc p a top) by (eapply anc_trans; [apply Hwk; now left|exact Hktop]).
+    assert (Hsub : forall x, In x new' -> In x new /\ x <> a).
+    { intros x Hx. apply Hm in Hx. destruct Hx as [Hx _]. now apply sdiscard_In in Hx. }
+    assert (Hmono : forall x, proc new x -> pm new' a x).
+    { intros x [K Hx]. split; [split; [exact K|]|apply Hmono0; now split]. intros H. apply Hsub in H. tauto. }
+    assert (Hknew : ~ In k new) by apply Pk.
+    assert (Hgone : forall x, In x new -> ~ In x new' -> x <> a -> In x ws).
+    { intros x Hx Hn Hxa. destruct (in_dec N.eq_dec x ws) as [H|H]; [exact H|]. exfalso. apply Hn.
+      apply Hm. split; [apply sdiscard_In; now split|]. rewrite in_app_iff. cbn. intros [H1|[H1|[]]]; [tauto|].
+      subst x. contradiction. }
+    assert (Hntop' : ~ proc new' top).
+    { intros [K Hn]. pose proof (notproc_known_In _ _ Hntop K) as Hnew.
+      assert (Hta : top <> a) by (intros E; symmetry in E; revert E; eapply anc_neq; eauto).
+      pose proof (Hgone _ Hnew Hn Hta) as Hin.
+      assert (anc p top top) by (eapply anc_trans; [apply Hwk; now right|exact Hktop]).
+      eapply anc_neq; eauto. }
+    exists ([a] ++ ws ++ pre), new', (mkFinder p (dset top (sdiscard k s) (dbt cf)) (ddel k (tfb cf))).
+    split; [exact Hw|]. constructor.
+    + reflexivity.
+    + exact Hsub.
+    + cbn [tfb]. intros b l E.
+      assert (Hbk : b <> k) by (intros ->; rewrite dget_ddel_eq in E; discriminate).
+      rewrite dget_ddel_neq in E by exact Hbk.
+      destruct (i_tree _ _ I _ _ E) as [Pb Hp]. split; [now apply Hmono|].
+      eapply ppath_mono; [exact Hp|exact Hmono|]. intros [[Kt Hnt'] Hta].
+      pose proof (ppath_last_notP _ _ _ _ Hp) as Hn.
+      pose proof (notproc_known_In _ _ Hn Kt) as Hnew.
+      eapply Htops; eauto.
+    + intros t b. cbn [dbt tfb]. rewrite inset_dset. split.
+      * intros [[-> Hb]|[Hn Hb]].
+        -- apply sdiscard_In in Hb. destruct Hb as [Hb Hbk].
+           assert (Hi : inset (dbt cf) top b) by (exists s; auto).
+           apply (i_dbt _ _ I) in Hi. destruct Hi as (l & E & El). exists l.
+           rewrite dget_ddel_neq by exact Hbk. auto.
+        -- apply (i_dbt _ _ I) in Hb. destruct Hb as (l & E & El). exists l. split; [|exact El].
+           rewrite dget_ddel_neq; [exact E|]. intros ->. rewrite Etk in E. inversion E; subst l. apply Hn. symmetry. exact El.
+      * intros (l & E & El).
+        assert (Hbk : b <> k) by (intros ->; rewrite dget_ddel_eq in E; discriminate).
+        rewrite dget_ddel_neq in E by exact Hbk.
+        assert (Hi : inset (dbt cf) t b) by (apply (i_dbt _ _ I); eauto).
+        destruct (N.eq_dec t top) as [->|Hn]; [left|right; auto].
+        split; [reflexivity|]. destruct Hi as (s' & Es' & Hb). rewrite Es in Es'. inversion Es'; subst s'.
+        apply sdiscard_In. auto.
+    + intros t s'. cbn [dbt]. destruct (N.eq_dec t top) as [->|Hn].
+      * rewrite dget_dset_eq. intros E. inversion E; subst s'. apply sdiscard_NoDup. eapply (i_nodup _ _ I); eauto.
+      * rewrite dget_dset_neq by exact Hn. apply (i_nodup _ _ I).
+    + cbn [tfb]. intros x [[K Hx] Hxa]. destruct (proc_dec new x) as [Px|Px].
+      * destruct (i_cover _ _ I _ Px) as (b & l & E & Hin).
+        destruct (N.eq_dec b k) as [->|Hbk].
+        -- right. rewrite Etk in E. inversion E; subst l. rewrite !in_app_iff. auto.
+        -- left. exists b, l. rewrite dget_ddel_neq by exact Hbk. auto.
+      * right. rewrite !in_app_iff. right. left. apply Hgone; auto. now apply notproc_known_In.
+    + cbn [app]. eapply linked_ppath_B; eauto.
+      * intros x Hx. split; [now apply Hwk|]. intros Hx'. destruct Hx as [<-|Hx].
+        -- apply Hsub in Hx'. tauto.
+        -- apply Hm in Hx'. rewrite in_app_iff in Hx'. tauto.
+      * eapply ppath_mono; [exact Hpk| |exact Hntop'].
+        intros x Px. apply Hmono in Px. apply Px.
+    + intros c y Pc Ey Hy. destruct (proc_dec new c) as [Px|Px].
+      * eapply (i_J _ _ I); eauto. apply Hsub in Hy. tauto.
+      * destruct Pc as [Kc Hc]. pose proof (notproc_known_In _ _ Px Kc) as Hcn.
+        assert (Hin : In c (a :: ws)).
+        { destruct (N.eq_dec c a) as [->|Hca]; [now left|right; apply Hgone; auto]. }
+        destruct (linked_next _ _ Hl _ _ Hin Ey) as [H|H].
+        -- apply Hm in Hy. rewrite in_app_iff in Hy. tauto.
+        -- subst c. rewrite Ek in Ey. inversion Ey; subst y. apply Hm in Hy. rewrite in_app_iff in Hy. cbn in Hy. tauto.
+    + pose proof (sdiscard_length_lt a new Ha). lia.
+Qed.
+
+(* ---- extend_all *)
+Lemma extend_all_spec path : forall desc t,
+  NoDup desc -> ~ In (hd 0 path) desc -> (forall d, In d desc -> dget d t <> None) ->
+  exists t', extend_all path desc t = Ret t' /\
+    (forall x, In x desc -> exists l, dget x t = Some l /\ dget x t' = Some (l ++ tl path)) /\
+    (forall x, ~ In x desc -> x <> hd 0 path -> dget x t' = dget x t) /\
+    (desc <> [] -> dget (hd 0 path) t' = None).
+Proof.
+  induction desc as [|d r IH]; intros t Hnd Ha Hall.
+  - exists t. split; [reflexivity|]. split; [intros x []|]. split; [auto|congruence].
+  - cbn [extend_all]. destruct (dget d t) as [l|] eqn:Ed; [|exfalso; eapply Hall; [now left|exact Ed]].
+    inversion Hnd as [|? ? Hdr Hr]; subst.
+    assert (Hda : d <> hd 0 path) by (intros E; apply Ha; now left).
+    set (t1 := ddel (hd 0 path) (dset d (l ++ tl path) t)).
+    assert (Ht1 : forall x, x <> hd 0 path -> x <> d -> dget x t1 = dget x t).
+    { intros x H1 H2. unfold t1. rewrite dget_ddel_neq by exact H1. now rewrite dget_dset_neq by exact H2. }
+    destruct (IH t1 Hr) as (t' & Hex & Ha' & Hb' & Hc').
+    { intros H. apply Ha. now right. }
+    { intros d' Hd'. rewrite Ht1; [apply Hall; now right| |].
+      - intros E. apply Ha. right. now rewrite <- E.
+      - intros ->. contradiction. }
+    exists t'. split; [exact Hex|]. split; [|split].
+    + intros x [<-|Hx].
+      * exists l. split; [exact Ed|]. rewrite Hb' by auto. unfold t1.
+        rewrite dget_ddel_neq by exact Hda. apply dget_dset_eq.
+      * destruct (Ha' x Hx) as (l' & E1 & E2). exists l'. split; [|exact E2].
+        rewrite <- Ht1; [exact E1| |].
+        -- intros E. apply Ha. right. now rewrite <- E.
+        -- intros ->. contradiction.
+    + intros x Hx Hxa. rewrite Hb'; [|intros H; apply Hx; now right|exact Hxa].
+      apply Ht1; [exact Hxa|]. intros ->. apply Hx. now left.
+    + intros _. destruct r as [|d' r'].
+      * cbn in Hex. inversion Hex; subst t'. unfold t1. apply dget_ddel_eq.
+      * apply Hc'. discriminate.
+Qed.
+
+(* ---- `setdefault(top, set())` *)
+Definition setdefault (top : hash) (d : dict (list hash)) := if dhas top d then d else dset top [] d.
+Lemma setdefault_inset top d t b : inset (setdefault top d) t b <-> inset d t b.
+Proof.
+  unfold setdefault. destruct (dhas top d) eqn:E; [tauto|]. apply dhas_false in E.
+  rewrite inset_dset. split.
+  - intros [[_ []]|[_ H]]. exact H.
+  - intros H. right. split; [|exact H]. intros ->. destruct H as (s & Es & _). congruence.
+Qed.
+Lemma setdefault_top top d : nodup_ok (mkFinder [] d []) ->
+  exists ts, dget top (setdefault top d) = Some ts /\ NoDup ts /\ forall b, In b ts <-> inset d top b.
+Proof.
+  intros Hnd. unfold setdefault. destruct (dhas top d) eqn:E.
+  - apply dhas_true in E. destruct (dget top d) as [s|] eqn:Es; [|congruence].
+    exists s. split; [reflexivity|]. split; [eapply (Hnd top); exact Es|].
+    intros b. unfold inset. rewrite Es. split; [eauto|intros (s' & E' & H); inversion E'; now subst].
+  - apply dhas_false in E. exists []. rewrite dget_dset_eq. split; [reflexivity|]. split; [constructor|].
+    intros b. split; [intros []|]. intros (s & Es & _). congruence.
+Qed.
+Lemma setdefault_other top d t : t <> top -> dget t (setdefault top d) = dget t d.
+Proof. intros H. unfold setdefault. destruct (dhas top d); [reflexivity|]. now apply dget_dset_neq. Qed.
+Lemma setdefault_nodup top d t s : nodup_ok (mkFinder [] d []) -> dget t (setdefault top d) = Some s -> NoDup s.
+Proof.
+  intros Hnd. unfold setdefault. destruct (dhas top d); [apply (Hnd t)|].
+  destruct (N.eq_dec t top) as [->|H].
+  - rewrite dget_dset_eq. intros E. inversion E. constructor.
+  - rewrite dget_dset_neq by exact H. apply (Hnd t).
+Qed.
+
+(* the part of meld_one after the walk *)
+Definition finish (path new : list hash) (cf : finder) : outcome (list hash * finder) :=
+  let bottom := hd 0 path in
+  let top := last path 0 in
+  let tfb1 := dset bottom path (tfb cf) in
+  let dbt1 := setdefault top (dbt cf) in
+  match dget bottom dbt1 with
+  | Some ((_ :: _) as desc) =>
+    match extend_all path desc tfb1 with
+    | Ret tfb2 =>
+      let dbt2 := ddel bottom dbt1 in
+      let topset := match dget top dbt1 with Some s => s | None => [] end in
+      Ret (new, mkFinder (pl cf) (dset top (sunion topset desc) dbt2) tfb2)
+    | Raise e => Raise e
+    | OutOfFuel => OutOfFuel
+    end
+  | _ =>
+    let topset := match dget top dbt1 with Some s => s | None => [] end in
+    Ret (new, mkFinder (pl cf) (dset top (sadd bottom topset) dbt1) tfb1)
+  end.
+Lemma meld_one_unfold prio new cf :
+  meld_one prio new cf =
+  match walk (S (length (pl cf))) (pick prio new) [pick prio new] (sdiscard (pick prio new) new) cf with
+  | Ret (path, new', cf') => finish path new' cf'
+  | Raise e => Raise e
+  | OutOfFuel => OutOfFuel
+  end.
+Proof. reflexivity. Qed.
+
+Lemma mid_finish a new new' path' cf' :
+  mid a new new' path' cf' -> (forall x, In x new -> In x N0) -> known a ->
+  exists cf'', finish path' new' cf' = Ret (new', cf'') /\ inv new' cf''.
+Proof.
+  intros M Hsub Hak.
+  assert (Pa : proc new' a). { split; [exact Hak|]. intros H. apply (m_sub _ _ _ _ _ M) in H. tauto. }
+  pose proof (m_path _ _ _ _ _ M) as Hp.
+  inversion Hp as [t Hn E1 E2 | b b' rest Pb Eb Hrest E1 E2]; subst; [contradiction|].
+  pose proof (ppath_ne _ _ _ _ Hrest) as Hrne.
+  set (path' := a :: rest) in *.
+  set (top := last path' 0).
+  assert (Htop : top = last rest 0) by (apply last_cons_ne; exact Hrne).
+  assert (Hntop : ~ proc new' top) by (apply (ppath_last_notP _ _ _ _ Hp)).
+  assert (Hta : top <> a) by (intros E; apply Hntop; rewrite E; exact Pa).
+  assert (Hat : a <> top) by (intros E; apply Hta; now symmetry).
+  assert (Hnoa : dget a (tfb cf') = None).
+  { destruct (dget a (tfb cf')) eqn:E; [|reflexivity].
+    destruct (m_tree _ _ _ _ _ M _ _ E) as [[_ H] _]. congruence. }
+  assert (Hsub' : forall x, In x new' -> In x N0).
+  { intros x H. apply Hsub. apply (m_sub _ _ _ _ _ M) in H. tauto. }
+  destruct (setdefault_top top (dbt cf')) as (ts & Ets & Hts_nd & Hts).
+  { intros t s; cbn; apply (m_nodup _ _ _ _ _ M). }
+  pose proof (setdefault_other top (dbt cf') a Hat) as Eda.
+  (* trees of cf' seen from the final processed set *)
+  assert (Hold_tree : forall b l, dget b (tfb cf') = Some l -> last l 0 <> a ->
+            b <> a /\ proc new' b /\ ppath p (proc new') b l).
+  { intros b l E Hl. destruct (m_tree _ _ _ _ _ M _ _ E) as [[Pb' Hba] Hpb]. split; [exact Hba|].
+    split; [exact Pb'|]. eapply ppath_mono; [exact Hpb|intros x Hx; apply Hx|].
+    intros Hx. apply (ppath_last_notP _ _ _ _ Hpb). split; [exact Hx|exact Hl]. }
+  unfold finish. change (hd 0 path') with a. fold top.
+  assert (NOEXT : (forall b l, dget b (tfb cf') = Some l -> last l 0 <> a) ->
+     inv new' (mkFinder (pl cf') (dset top (sadd a ts) (setdefault top (dbt cf'))) (dset a path' (tfb cf')))).
+  { intros Hnolast. constructor; cbn [pl dbt tfb].
+    - apply M.
+    - exact Hsub'.
+    - intros b l. destruct (N.eq_dec b a) as [->|Hba].
+      + rewrite dget_dset_eq. intros E. inversion E; subst l. auto.
+      + rewrite dget_dset_neq by exact Hba. intros E. apply Hold_tree; eauto.
+    - intros t b. unfold dbt_ok. cbn [dbt tfb]. rewrite inset_dset, sadd_In, setdefault_inset, Hts. split.
+      + intros [[-> [->|Hb]]|[Hn Hb]].
+        * exists path'. now rewrite dget_dset_eq.
+        * apply (m_dbt _ _ _ _ _ M) in Hb. destruct Hb as (l & E & El). exists l. split; [|exact El].
+          rewrite dget_dset_neq; [exact E|]. intros ->. congruence.
+        * apply (m_dbt _ _ _ _ _ M) in Hb. destruct Hb as (l & E & El). exists l. split; [|exact El].
+          rewrite dget_dset_neq; [exact E|]. intros ->. congruence.
+      + intros (l & E & El). destruct (N.eq_dec b a) as [->|Hba].
+        * rewrite dget_dset_eq in E. inversion E; subst l. left. split; [symmetry; exact El|now left].
+        * rewrite dget_dset_neq in E by exact Hba.
+          assert (Hi : inset (dbt cf') t b) by (apply (m_dbt _ _ _ _ _ M); eauto).
+          destruct (N.eq_dec t top) as [->|Hn]; [left; split; [reflexivity|right; exact Hi]|right; auto].
+    - intros t s. cbn [dbt]. destruct (N.eq_dec t top) as [->|Hn].
+      + rewrite dget_dset_eq. intros E. inversion E. now apply sadd_NoDup.
+      + rewrite dget_dset_neq by exact Hn. apply setdefault_nodup. intros t' s'; cbn; apply (m_nodup _ _ _ _ _ M).
+    - intros x Px. destruct (N.eq_dec x a) as [->|Hxa].
+      + exists a, path'. rewrite dget_dset_eq. split; [reflexivity|now left].
+      + destruct (m_cover _ _ _ _ _ M x (conj Px Hxa)) as [(b & l & E & Hin)|Hin].
+        * exists b, l. split; [|exact Hin]. rewrite dget_dset_neq; [exact E|]. intros ->. congruence.
+        * exists a, path'. rewrite dget_dset_eq. auto.
+    - apply M. }
+  rewrite Eda.
+  destruct (dget a (dbt cf')) as [[|d0 dr]|] eqn:Edesc.
+  - (* empty set stored under a *)
+    rewrite Ets. eexists. split; [reflexivity|]. apply NOEXT.
+    intros b l E El. assert (Hi : inset (dbt cf') a b) by (apply (m_dbt _ _ _ _ _ M); eauto).
+    destruct Hi as (s & Es & Hb). rewrite Edesc in Es. inversion Es; subst s. destruct Hb.
+  - (* orphans were waiting for a: extend their paths *)
+    set (desc := d0 :: dr) in *.
+    assert (Hdesc : forall b, In b desc <-> exists l, dget b (tfb cf') = Some l /\ last l 0 = a).
+    { intros b. rewrite <- (m_dbt _ _ _ _ _ M a b). unfold inset. rewrite Edesc. split; [eauto|].
+      intros (s & Es & Hb). inversion Es; now subst. }
+    assert (Hand : ~ In a desc).
+    { intros H. apply Hdesc in H. destruct H as (l & E & _). congruence. }
+    destruct (extend_all_spec path' desc (dset a path' (tfb cf'))) as (tfb2 & Hex & Hin2 & Hout2 & Ha2).
+    { eapply (m_nodup _ _ _ _ _ M); eauto. }
+    { exact Hand. }
+    { intros d Hd. rewrite dget_dset_neq by (intros ->; contradiction).
+      apply Hdesc in Hd. destruct Hd as (l & E & _). congruence. }
+    change (hd 0 path') with a in *. change (tl path') with rest in *.
+    rewrite Hex, Ets. eexists. split; [reflexivity|].
+    (* trees of the final state *)
+    assert (Hfin : forall b l, dget b tfb2 = Some l ->
+       b <> a /\ ((In b desc /\ exists l0, dget b (tfb cf') = Some l0 /\ last l0 0 = a /\ l = l0 ++ rest) \/
+                   (~ In b desc /\ dget b (tfb cf') = Some l /\ last l 0 <> a))).
+    { intros b l E. destruct (N.eq_dec b a) as [->|Hba]; [rewrite Ha2 in E by discriminate; discriminate|].
+      split; [exact Hba|]. destruct (in_dec N.eq_dec b desc) as [Hd|Hd].
+      - left. split; [exact Hd|]. destruct (Hin2 _ Hd) as (l0 & E0 & E1).
+        rewrite dget_dset_neq in E0 by exact Hba. rewrite E1 in E. inversion E; subst l.
+        exists l0. split; [exact E0|]. split; [|reflexivity].
+        apply Hdesc in Hd. destruct Hd as (l' & E' & El'). congruence.
+      - right. split; [exact Hd|]. rewrite Hout2 in E by assumption.
+        rewrite dget_dset_neq in E by exact Hba. split; [exact E|].
+        intros El. apply Hd. apply Hdesc. eauto. }
+    assert (Hlast_ext : forall l0, last (l0 ++ rest) 0 = top).
+    { intros l0. rewrite last_app_ne by exact Hrne. now symmetry. }
+    constructor; cbn [pl dbt tfb].
+    + apply M.
+    + exact Hsub'.
+    + intros b l E. destruct (Hfin _ _ E) as [Hba [(Hd & l0 & E0 & El0 & ->)|(Hd & E0 & El0)]].
+      * destruct (m_tree _ _ _ _ _ M _ _ E0) as [[Pb' _] Hpb]. split; [exact Pb'|].
+        eapply ppath_app; [exact Hpb|exact El0|intros x Hx; apply Hx|exact Hp].
+      * apply Hold_tree; auto.
+    + intros t b. unfold dbt_ok. cbn [dbt tfb]. rewrite inset_dset, sunion_In, inset_ddel, setdefault_inset, Hts. split.
+      * intros [[-> [Hb|Hb]]|[Hn [Hna Hb]]].
+        -- apply (m_dbt _ _ _ _ _ M) in Hb. destruct Hb as (l & E & El). exists l. split; [|exact El].
+           rewrite Hout2; [rewrite dget_dset_neq; [exact E|intros ->; congruence]| |intros ->; congruence].
+           intros Hd. apply Hdesc in Hd. destruct Hd as (l' & E' & El'). rewrite E in E'. inversion E'; subst l'.
+           congruence.
+        -- destruct (Hin2 _ Hb) as (l0 & E0 & E1). exists (l0 ++ rest). split; [exact E1|apply Hlast_ext].
+        -- apply (m_dbt _ _ _ _ _ M) in Hb. destruct Hb as (l & E & El). exists l. split; [|exact El].
+           rewrite Hout2; [rewrite dget_dset_neq; [exact E|intros ->; congruence]| |intros ->; congruence].
+           intros Hd. apply Hdesc in Hd. destruct Hd as (l' & E' & El'). rewrite E in E'. inversion E'; subst l'.
+           congruence.
+      * intros (l & E & El). destruct (Hfin _ _ E) as [Hba [(Hd & l0 & E0 & El0 & ->)|(Hd & E0 & El0)]].
+        -- left. rewrite Hlast_ext in El. split; [now symmetry|now right].
+        -- assert (Hi : inset (dbt cf') t b) by (apply (m_dbt _ _ _ _ _ M); eauto).
+           destruct (N.eq_dec t top) as [->|Hn]; [left; split; [reflexivity|left; exact Hi]|right].
+           split; [exact Hn|]. split; [congruence|exact Hi].
+    + intros t s. cbn [dbt]. destruct (N.eq_dec t top) as [->|Hn].
+      * rewrite dget_dset_eq. intros E. injection E as <-. apply (sunion_NoDup ts desc). exact Hts_nd.
+      * rewrite dget_dset_neq by exact Hn. destruct (N.eq_dec t a) as [->|Hna].
+        -- rewrite dget_ddel_eq. discriminate.
+        -- rewrite dget_ddel_neq by exact Hna. apply setdefault_nodup. intros t' s'; cbn; apply (m_nodup _ _ _ _ _ M).
+    + intros x Px.
+      assert (Hd0 : In d0 desc) by now left.
+      destruct (Hin2 _ Hd0) as (l0 & E0 & E1).
+      assert (Hl0a : last l0 0 = a).
+      { rewrite dget_dset_neq in E0 by (intros ->; contradiction).
+        apply Hdesc in Hd0. destruct Hd0 as (l' & E' & El'). congruence. }
+      assert (Hl0ne : l0 <> []).
+      { rewrite dget_dset_neq in E0 by (intros ->; contradiction).
+        destruct (m_tree _ _ _ _ _ M _ _ E0) as [_ Hp0]. eapply ppath_ne; eauto. }
+      assert (Hpath_in : forall y, In y path' -> In y (l0 ++ rest)).
+      { intros y [<-|Hy]; rewrite in_app_iff; [left|now right]. rewrite <- Hl0a. now apply last_In. }
+      destruct (N.eq_dec x a) as [->|Hxa].
+      * exists d0, (l0 ++ rest). split; [exact E1|]. apply Hpath_in. now left.
+      * destruct (m_cover _ _ _ _ _ M x (conj Px Hxa)) as [(b & l & E & Hin)|Hin].
+        -- destruct (in_dec N.eq_dec b desc) as [Hd|Hd].
+           ++ destruct (Hin2 _ Hd) as (lb & Eb0 & Eb1). exists b, (lb ++ rest). split; [exact Eb1|].
+              rewrite dget_dset_neq in Eb0 by (intros ->; contradiction).
+              rewrite E in Eb0. inversion Eb0; subst lb. rewrite in_app_iff. now left.
+           ++ exists b, l. split; [|exact Hin]. rewrite Hout2; [|exact Hd|intros ->; congruence].
+              rewrite dget_dset_neq; [exact E|intros ->; congruence].
+        -- exists d0, (l0 ++ rest). split; [exact E1|]. now apply Hpath_in.
+    + apply M.
+  - rewrite Ets. eexists. split; [reflexivity|]. apply NOEXT.
+    intros b l E El. assert (Hi : inset (dbt cf') a b) by (apply (m_dbt _ _ _ _ _ M); eauto).
+    destruct Hi as (s & Es & Hb). rewrite Edesc in Es. discriminate.
+Qed.
+
+Lemma meld_one_inv prio new cf : inv new cf -> new <> [] ->
+  exists new' cf', meld_one prio new cf = Ret (new', cf') /\ inv new' cf' /\ (length new' < length new)%nat.
+Proof.
+  intros I Hne. pose proof (pick_In prio new Hne) as Ha. set (a := pick prio new) in *.
+  destruct (walk_mid new cf a I Ha) as (path' & new' & cf' & Hw & M).
+  destruct (mid_finish a new new' path' cf' M (i_sub _ _ I)) as (cf'' & Hf & I').
+  { apply N0_new. apply (i_sub _ _ I). exact Ha. }
+  exists new', cf''. split; [|split; [exact I'|apply M]].
+  rewrite meld_one_unfold. fold a. rewrite Hw. exact Hf.
+Qed.
+
+Lemma meld_inv prio : forall fuel new cf, inv new cf -> (length new <= fuel)%nat ->
+  exists cf', meld fuel prio new cf = Ret cf' /\ inv [] cf'.
+Proof.
+  induction fuel as [|f IH]; intros new cf I Hlen.
+  - destruct new; [|cbn in Hlen; lia]. exists cf. split; [reflexivity|exact I].
+  - destruct new as [|x r] eqn:En; [exists cf; split; [reflexivity|exact I]|].
+    rewrite <- En in *. assert (Hne : new <> []) by (rewrite En; discriminate).
+    destruct (meld_one_inv prio new cf I Hne) as (new' & cf' & Hm & I' & Hl).
+    destruct (IH new' cf' I') as (cf'' & Hm' & I''); [lia|].
+    exists cf''. split; [|exact I'']. rewrite En. cbn [meld]. rewrite <- En, Hm. exact Hm'.
+Qed.
 End Meld.
+
+(* ------------------------------------------------------------------ the invariant between batches *)
+Lemma finder_ok_empty : finder_ok empty_finder.
+Proof.
+  split; [intros b l E; discriminate|]. split; [|split].
+  - intros t b. split; [intros (s & E & _); discriminate|intros (l & E & _); discriminate].
+  - intros t s E. discriminate.
+  - intros x H. exfalso. apply H. reflexivity.
+Qed.
+
+Lemma register_spec : forall nodes p0 n0 p' N',
+  register nodes p0 n0 = (p', N') ->
+  (forall x q, dget x p0 = Some q -> dget x p' = Some q) /\
+  (forall x, In x N' <-> In x n0 \/ (dget x p0 = None /\ dget x p' <> None)).
+Proof.
+  induction nodes as [|[h par] r IH]; intros p0 n0 p' N' E; cbn in E.
+  - inversion E; subst. split; [auto|]. intros x. split; [auto|]. intros [H|[H1 H2]]; [exact H|congruence].
+  - destruct (dhas h p0) eqn:Eh.
+    + apply IH. exact E.
+    + apply dhas_false in Eh. destruct (IH _ _ _ _ E) as [H1 H2]. split.
+      * intros x q Hx. apply H1. rewrite dget_dset_neq; [exact Hx|congruence].
+      * intros x. rewrite H2, sadd_In. split.
+        -- intros [[->|H]|[Ha Hb]].
+           ++ right. split; [exact Eh|]. rewrite (H1 h par); [discriminate|apply dget_dset_eq].
+           ++ now left.
+           ++ right. split; [|exact Hb]. destruct (N.eq_dec x h) as [->|Hn]; [exact Eh|].
+              now rewrite dget_dset_neq in Ha by exact Hn.
+        -- intros [H|[Ha Hb]]; [left; now right|].
+           destruct (N.eq_dec x h) as [->|Hn]; [left; now left|].
+           right. split; [|exact Hb]. now rewrite dget_dset_neq by exact Hn.
+Qed.
+
+Lemma ppath_change_p p p' (P : hash -> Prop) b l :
+  ppath p P b l -> (forall x q, P x -> dget x p = Some q -> dget x p' = Some q) -> ppath p' P b l.
+Proof. induction 1; intros H'; [now constructor|]. econstructor; eauto. Qed.
+
+Lemma reaches_complete p : forall fuel n a t, steps p (S n) a t -> (S n <= fuel)%nat ->
+  reaches fuel p a t = true.
+Proof.
+  induction fuel as [|f IH]; intros n a t Hs Hle; [lia|].
+  inversion Hs as [|n' a' q t' Eq Hs']; subst. cbn. rewrite Eq. destruct n as [|n'].
+  - inversion Hs'; subst. now rewrite N.eqb_refl.
+  - rewrite (IH n' q t Hs'); [apply orb_true_r|lia].
+Qed.
+
+Theorem load_nodes_ok rk cf nodes p' N0 :
+  finder_ok cf -> register nodes (pl cf) [] = (p', N0) -> ranked rk p' ->
+  bad_batch (pl cf) nodes = false ->
+  forall prio, exists cf', load_nodes prio nodes cf = Ret cf' /\ finder_ok cf' /\ pl cf' = p'.
+Proof.
+  intros (Ft & Fd & Fn & Fc) Hreg Hrk Hbad prio.
+  destruct (register_spec _ _ _ _ _ Hreg) as [R1 R2].
+  set (p0 := pl cf) in *.
+  assert (R2' : forall x, In x N0 <-> dget x p0 = None /\ dget x p' <> None).
+  { intros x. rewrite R2. cbn. tauto. }
+  assert (Kold : forall x, kn p0 x -> kn p' x).
+  { intros x H. unfold kn in *. destruct (dget x p0) eqn:E; [|congruence]. rewrite (R1 _ _ E). discriminate. }
+  assert (Kproc : forall x, kn p0 x <-> proc p' N0 x).
+  { intros x. split.
+    - intros H. split; [now apply Kold|]. intros Hin. apply R2' in Hin. unfold kn in H. tauto.
+    - intros [K Hn]. unfold kn, known in *. destruct (dget x p0) eqn:E; [discriminate|].
+      exfalso. apply Hn. apply R2'. auto. }
+  assert (I0 : inv p' (kn p0) N0 N0 (mkFinder p' (dbt cf) (tfb cf))).
+  { constructor; cbn [pl dbt tfb].
+    - reflexivity.
+    - auto.
+    - intros b l E. destruct (Ft _ _ E) as [Kb Hp]. split; [now apply Kproc|].
+      eapply ppath_mono.
+      + eapply ppath_change_p; [exact Hp|]. intros x q _ Hx. now apply R1.
+      + intros x Hx. now apply Kproc.
+      + intros Hx. apply (ppath_last_notP _ _ _ _ Hp). now apply Kproc.
+    - exact Fd.
+    - exact Fn.
+    - intros x Hx. apply Fc. now apply Kproc.
+    - intros c y Hc _ _. now apply Kproc. }
+  unfold load_nodes. fold p0. rewrite Hreg.
+  destruct (meld_inv p' rk Hrk (kn p0) N0) with (prio := prio) (fuel := length N0) (new := N0)
+    (cf := mkFinder p' (dbt cf) (tfb cf)) as (cf' & Hm & I').
+  - intros x Hx. apply R2' in Hx. split; [unfold kn; tauto|unfold known; tauto].
+  - (* safe *)
+    intros t a c Ht Ha Hat Hc Ec Hanc.
+    unfold bad_batch in Hbad. fold p0 in Hbad. rewrite Hreg in Hbad.
+    rewrite <- not_true_iff_false in Hbad. apply Hbad. apply existsb_exists. exists t. split; [exact Ht|].
+    apply andb_true_intro. split.
+    + unfold has_child_in. apply existsb_exists. exists (c, t). split; [|apply N.eqb_refl].
+      apply dget_In. unfold kn in Hc. destruct (dget c p0) as [q|] eqn:E; [|congruence].
+      pose proof (R1 _ _ E) as E'. rewrite E' in Ec. injection Ec as <-. exact E.
+    + apply existsb_exists. exists a. split; [exact Ha|]. apply andb_true_intro. split.
+      * apply negb_true_iff. now apply N.eqb_neq.
+      * destruct Hanc as [n Hs]. eapply reaches_complete; [exact Hs|].
+        pose proof (steps_bound _ _ _ _ _ Hrk Hs). lia.
+  - exact I0.
+  - lia.
+  - exists cf'. split; [exact Hm|]. split; [|apply I'].
+    pose proof (i_pl _ _ _ _ _ I') as Epl.
+    assert (Kp : forall x, proc p' [] x <-> kn (pl cf') x).
+    { intros x. rewrite Epl. unfold proc, known, kn. cbn. tauto. }
+    split; [|split; [apply I'|split; [apply I'|]]].
+    + intros b l E. destruct (i_tree _ _ _ _ _ I' _ _ E) as [Pb Hp]. split; [now apply Kp|].
+      rewrite Epl. eapply ppath_mono; [exact Hp| |].
+      * intros x Hx. apply Kp in Hx. now rewrite Epl in Hx.
+      * intros Hx. apply (ppath_last_notP _ _ _ _ Hp). apply Kp. now rewrite Epl.
+    + intros x Hx. apply (i_cover _ _ _ _ _ I'). now apply Kp.
+Qed.
